@@ -298,6 +298,86 @@ Example C20_example_calculate_order_routes :
   calculate_order_args (distance_calc 0 1 true) true conf None None None None = Some 17.
 Proof. vm_compute. repeat split. Qed.
 
+(* ------------------------------------------------------------------ propagate: the direction flag
+   where the package applies the reversal: EngineBase.propagate sets system.vel_rev = reverse
+   BEFORE the engine runs, so every frame of a run in direction r has its order computed
+   under flag r (model: propagate_flag / propagate_frame), whatever flag the shooting point
+   came in with *)
+Theorem C20_propagate_frame_flag :
+  forall (A : Type) (calc : system -> option A) f r xyz vel box,
+  propagate_frame calc f r xyz vel box = (calc (Sys xyz (if r then map vneg vel else vel) box), r).
+Proof. exact @propagate_frame_flag. Qed.
+Print Assumptions C20_propagate_frame_flag.
+
+(* recomputing the order of a stored frame from the frame's raw content under the frame's
+   own stored flag gives the stored order *)
+Theorem C20_propagate_frame_recompute :
+  forall (A : Type) (calc : system -> option A) f r xyz vel box,
+  fst (propagate_frame calc f r xyz vel box) =
+  calculate_order calc (snd (propagate_frame calc f r xyz vel box)) xyz vel box.
+Proof. exact @propagate_frame_recompute. Qed.
+Print Assumptions C20_propagate_frame_recompute.
+
+(* frame 0 of a run in either direction, from a shooting point with either flag, carries
+   the shooting point's order *)
+Theorem C20_propagate_frame0_shooting_point :
+  forall (A : Type) (calc : system -> option A) f r xyz vel box,
+  fst (propagate_frame0 calc f r xyz vel box) = calculate_order calc f xyz vel box /\
+  snd (propagate_frame0 calc f r xyz vel box) = r.
+Proof. exact @propagate_frame0_shooting_point. Qed.
+Print Assumptions C20_propagate_frame0_shooting_point.
+
+(* the backward run and the forward run from the reversed point start the engine with the
+   same raw velocities (reversed point = same file with the flag toggled, or a file holding
+   the negated physical velocities under flag false) ... *)
+Theorem C20_propagate_reversed_point_same_run : forall (f r : bool) (vel : list v3),
+  propagate_start (negb f) (negb r) vel = propagate_start f r vel /\
+  propagate_start false false (if f then vel else map vneg vel) = propagate_start f true vel.
+Proof. intros. split; [apply propagate_start_toggled | apply propagate_start_reversed_file]. Qed.
+Print Assumptions C20_propagate_reversed_point_same_run.
+
+(* ... and on the same raw frame the backward run stores the sign-reversed order for the
+   velocity-type parameters and the same order for the position-type ones *)
+Theorem C20_propagate_backward_velocity : forall i dim f f' xyz vel box,
+  fst (propagate_frame (velocity_calc i dim) f true xyz vel box) =
+  option_map Z.opp (fst (propagate_frame (velocity_calc i dim) f' false xyz vel box)).
+Proof. exact propagate_backward_velocity. Qed.
+Print Assumptions C20_propagate_backward_velocity.
+
+Theorem C20_propagate_backward_distancevel : forall fx i0 i1 per f f' xyz vel box,
+  fst (propagate_frame (distancevel_calc fx i0 i1 per) f true xyz vel box) =
+  option_map (dv_scale (-1) 1) (fst (propagate_frame (distancevel_calc fx i0 i1 per) f' false xyz vel box)).
+Proof. exact propagate_backward_distancevel. Qed.
+Print Assumptions C20_propagate_backward_distancevel.
+
+Theorem C20_propagate_backward_position_type : forall f f' xyz vel box,
+  (forall i dim, fst (propagate_frame (position_calc i dim) f true xyz vel box) =
+                 fst (propagate_frame (position_calc i dim) f' false xyz vel box)) /\
+  (forall i0 i1 per, fst (propagate_frame (distance_calc i0 i1 per) f true xyz vel box) =
+                     fst (propagate_frame (distance_calc i0 i1 per) f' false xyz vel box)) /\
+  (forall i0 i1 i2 i3 per, fst (propagate_frame (dihedral_calc i0 i1 i2 i3 per) f true xyz vel box) =
+                           fst (propagate_frame (dihedral_calc i0 i1 i2 i3 per) f' false xyz vel box)) /\
+  (forall idx per, fst (propagate_frame (puckering_calc idx per) f true xyz vel box) =
+                   fst (propagate_frame (puckering_calc idx per) f' false xyz vel box)).
+Proof. exact propagate_backward_position_type. Qed.
+Print Assumptions C20_propagate_backward_position_type.
+
+(* non-vacuity: a shooting point with a non-zero velocity-type value; frame 0 of all four
+   (incoming flag, direction) combinations; the last two lines show that the rule matters:
+   computing frame 0 of a backward run from a forward-flagged point under the INCOMING flag
+   (system.vel_rev assigned only after the run) gives the opposite sign *)
+Example C20_example_propagate :
+  let x := [V3 4 1 0; V3 0 0 0] in let v := [V3 1 0 0; V3 0 2 0] in let b := Some [16; 16; 16] in
+  propagate_frame0 (velocity_calc 1 1) false false x v b = (Some 2, false) /\
+  propagate_frame0 (velocity_calc 1 1) false true x v b = (Some 2, true) /\
+  propagate_frame0 (velocity_calc 1 1) true false x v b = (Some (-2), false) /\
+  propagate_frame0 (velocity_calc 1 1) true true x v b = (Some (-2), true) /\
+  propagate_frame0 (distancevel_calc true 0 1 true) false true x v b = (Some (2, 17), true) /\
+  propagate_frame0 (distance_calc 0 1 true) true false x v b = (Some 17, false) /\
+  calculate_order (velocity_calc 1 1) false x v b = Some 2 /\
+  calculate_order (velocity_calc 1 1) false x (propagate_start false true v) b = Some (-2).
+Proof. vm_compute. repeat split. Qed.
+
 (* ------------------------------------------------------------------ box forms
    any box list gives what its first three entries give: the 9-component form
    (lengths, then off-diagonal elements) equals the 3-component form *)
